@@ -135,6 +135,9 @@ def concretise(job, unit, res, workdir, log):
             prop, desc, vals = RP.trace_inputs(o, set(n for n, t in hg.inputs))
             if prop is None:
                 return None
+            m_ = re.match(r'ensures\.(\d+)$', desc or '')
+            if m_ and job.get('scope_re') and not re.search(job['scope_re'], '%s.postcondition.%s' % (fn, m_.group(1))):
+                return None     # a postcondition that belongs to the other property sharing this proof
             nhits[0] += 1
             if nhits[0] >= 4:
                 stop.set()
